@@ -5,7 +5,7 @@
      transport : an oracle, one event per transport.recv(bufsize, timeout) call:
                  BData chunk expired  -- a chunk; [expired]: the recomputed timeout is 0 after this call
                  BEof                 -- b""          BTimeout -- recv raised TimeoutError                      *)
-From EN Require Import Lib.Bytes.
+From EN Require Import Lib.Bytes Frame.Framer Stream.Consumer.
 
 Inductive bevent := BData (b : bytes) (expired : bool) | BEof | BTimeout.
 
@@ -67,3 +67,67 @@ Definition fx_next (size : nat) (buf : bytes) (chunk : option bytes) : bytes * o
 
 Definition brun_fixed (size bufsize : nat) (calls : list bool) (evs : list bevent) :=
   brun (fx_next size) bufsize calls [] false evs.
+
+(* ---- the buffer-filling blocking receiver: _BufferedReceiverImpl.receive of lowlevel/api_sync/endpoints/stream.py.
+   The consumer is used through three functions (as in Conc/SockEndpoint.v, repeated here to keep this file
+   independent): next(None) | get_write_buffer() -> exported state and size of the view (None = RuntimeError) |
+   next(n) after the transport wrote the n bytes [d] into the view.  One oracle event per transport.recv_into(buffer,
+   timeout) call; a chunk longer than the view makes the script meaningless (BStuck). *)
+Section BlockRecvBuffered.
+  Context {C R : Type}.
+  Variable bdrain : C -> C * option R.
+  Variable broom : C -> option (C * nat).
+  Variable bfeedn : C -> bytes -> C * option R.
+
+  Fixpoint bloopb (evs : list bevent) (tz : bool) (c : C) (eof : bool) : C * bool * list bevent * @bres R :=
+    if eof then (c, eof, evs, BClosed) else
+    match broom c with
+    | None => (c, eof, evs, BStuck)
+    | Some (c1, room) =>
+        match evs with
+        | [] => (c1, eof, [], BStuck)
+        | BTimeout :: evs' => (c1, eof, evs', BTimedOut)          (* TimeoutError out of transport.recv_into *)
+        | BEof :: evs' => (c1, true, evs', BClosed)
+        | BData b expired :: evs' =>
+            if nilb b then (c1, true, evs', BClosed)
+            else if Nat.ltb room (length b) then (c1, eof, evs', BStuck)
+            else
+              match bfeedn c1 b with
+              | (c', Some r) => (c', eof, evs', BPacket r)
+              | (c', None) =>
+                  if tz then
+                    if Nat.ltb (length b) room then (c', eof, evs', BTimedOut)   (* nbytes < bufsize: break *)
+                    else bloopb evs' true c' eof
+                  else bloopb evs' expired c' eof
+              end
+        end
+    end.
+
+  Definition breceiveb (tz : bool) (c : C) (eof : bool) (evs : list bevent) : C * bool * list bevent * @bres R :=
+    match bdrain c with
+    | (c', Some r) => (c', eof, evs, BPacket r)
+    | (c', None) => bloopb evs tz c' eof
+    end.
+
+  Fixpoint brunb (calls : list bool) (c : C) (eof : bool) (evs : list bevent) : C * bool * list (@bres R) :=
+    match calls with
+    | [] => (c, eof, [])
+    | tz :: calls' =>
+        let '(c1, e1, evs1, r) := breceiveb tz c eof evs in
+        let '(c2, e2, rs) := brunb calls' c1 e1 evs1 in
+        (c2, e2, r :: rs)
+    end.
+End BlockRecvBuffered.
+
+(* BufferedStreamDataConsumer seen through those three functions *)
+Definition nres_opt {P} (r : nres P) : option (nres P) := match r with RStop => None | _ => Some r end.
+
+Definition bufc_drain {P} (F : bframer P) (sizehint : nat) (c : bcstate F) : bcstate F * option (nres P) :=
+  let '(c', r) := bcnext F sizehint c None in (c', nres_opt r).
+Definition bufc_room {P} (F : bframer P) (sizehint : nat) (c : bcstate F) : option (bcstate F * nat) :=
+  match bc_get_write_buffer F sizehint c with
+  | (c1, Some (_, len)) => Some (c1, len)
+  | (_, None) => None
+  end.
+Definition bufc_feed {P} (F : bframer P) (sizehint : nat) (c : bcstate F) (d : bytes) : bcstate F * option (nres P) :=
+  let '(c', r) := bcnext F sizehint (bc_fill F c d) (Some (length d)) in (c', nres_opt r).
